@@ -9,7 +9,9 @@ from .core import cq_bool, cq_list, cq_pos
 
 THEOREMS = ["C09_partition", "C09_flow", "C09_potential", "C09_model_rows", "C09_sharing_invariant",
             "C09_example", "C09_join_injective", "C09_prefix_with_separator", "C09_bare_prefix_refuted",
-            "C09_name_test_sound", "C09_string_partition", "C09_string_model_rows", "C09_string_example"]
+            "C09_name_test_sound", "C09_string_partition", "C09_string_model_rows", "C09_string_example",
+            "C09_partition_indexed", "C09_flow_indexed", "C09_potential_indexed", "C09_model_rows_indexed",
+            "C09_sharing_invariant_indexed", "C09_byname_all_or_none", "C09_byname_refuted"]
 
 POT_KINDS = ("pot", "in", "out")
 KIND_DECL = {"pot": "Real", "in": "input Real", "out": "output Real", "flow": "flow Real",
@@ -825,7 +827,20 @@ def ident_ids(case):
         names.update(n for n, _ in c["conns"])
         names.update(n for n, _ in c["subs"])
         names.update(c.get("reals", []))
-    return {n: cq_pos(i + 1) for i, n in enumerate(sorted(names))}
+    return IdxIds({n: "(%s, [])" % cq_pos(i + 1) for i, n in enumerate(sorted(names))})
+
+
+class IdxIds(dict):
+    """identifier -> Coq term of type positive * list Z; 'a[2]' -> (id a, [2])"""
+    def __missing__(self, k):
+        b = base(k)
+        if b == k or b not in self:
+            raise KeyError(k)
+        sub = k[len(b):].strip("[]")
+        return dict.__getitem__(self, b).replace("[])", "[%s])" % core.cq_Z(int(sub)))
+
+    def has(self, k):
+        return base(k) in self
 
 
 KIND_COQ = {"pot": "KPot", "in": "KPot", "out": "KPot", "flow": "KFlow", "par": "KPar", "const": "KPar"}
@@ -845,8 +860,9 @@ def enc_inst(case, tab, ids, cname):
     subs = [d for d in c["decl_order"] if d in [list(x) for x in c["subs"]] and d[1] in tab]
     subs = [d for d in subs if d[1] not in case["connectors"]]
     conns = [d for d in c["decl_order"] if d[1] in case["connectors"]]
-    decl = cq_list(["(%s, %s)" % (ids[n], enc_cvars(ids, case["connectors"][t])) for n, t in conns])
-    ss = cq_list(["(%s, %s)" % (ids[n], enc_inst(case, tab, ids, t)) for n, t in subs])
+    decl = cq_list(["(%s, %s)" % (ids[e], enc_cvars(ids, case["connectors"][t])) for n, t in conns
+                    for e in elems(c, n)])
+    ss = cq_list(["(%s, %s)" % (ids[e], enc_inst(case, tab, ids, t)) for n, t in subs for e in elems(c, n)])
     cl = []
     for it in c["body"]:
         if it[0] == "connect":
@@ -875,14 +891,16 @@ def encode_case(case, res):
             rows.remove(p)
     for r in rows:
         for v, c in r.items():
-            if c.denominator != 1 or any(x not in ids for x in v.split(".")):
+            if c.denominator != 1 or any(not ids.has(x) for x in v.split(".")):
                 return None, "row %s outside the model vocabulary" % show(r)
     return "(%s, %s)" % (enc_inst(case, tab, ids, case["top"]), cq_list([enc_row(ids, r) for r in rows])), None
 
 
 SHARD = 120
-PREAMBLE = "From stdpp Require Import gmap.\nFrom PV Require Import Lib.Closure Model.C09_connect.\n"
-CASE_TYPE = "inst positive * list (list (list positive * Z))"
+PREAMBLE = ("From stdpp Require Import gmap.\n"
+            "From PV Require Import Lib.Closure Model.C09_connect Proofs.C09_connect Proofs.C09_indexed.\n")
+CASE_TYPE = "inst (positive * list Z) * list (list (list (positive * list Z) * Z))"
+CHECK_FN = "check_case_byname"     # zero defaults removed by array NAME, as tree.py:1118-1119 does
 
 # string level: identifiers and flattened names as the real strings, names built by the dot-joined instance
 PREAMBLE_S = ("From stdpp Require Import gmap strings.\nFrom Coq Require Import Ascii String.\n"
@@ -1012,8 +1030,7 @@ def run(ctx):
             unenc.append((i, "impl failure"))
             continue
         if has_arrays(c):
-            n_array_cases += 1          # scalar-connector model: array cases are judged by the oracle only
-            continue
+            n_array_cases += 1          # array elements = names with subscripts (indexed instance of the model)
         try:
             e, why = encode_case(c, r)
         except NonLinear as ex_:
@@ -1028,13 +1045,14 @@ def run(ctx):
     bg.shutdown()
     t0 = time.time()
     ev = ThreadPoolExecutor(max_workers=1)
-    path_future = ev.submit(core.coq_eval_cases, ctx, "rows", PREAMBLE, CASE_TYPE, enc, "check_case", SHARD)
+    path_future = ev.submit(core.coq_eval_cases, ctx, "rows", PREAMBLE, CASE_TYPE, enc, CHECK_FN, SHARD)
     # (c) the same comparison at STRING level on a sample: identifiers and flattened names are the real
     #     strings, the model builds names with the dot-joined instance and compares them as strings
     t0 = time.time()
     n_str = ctx.scaled(90, 900)
     pick = [i for i in idx if cases[i]["shape"].startswith("exhaustive")][:n_str // 3]
-    pick += [i for i in idx if not cases[i]["shape"].startswith("exhaustive")][:n_str - len(pick)]
+    pick += [i for i in idx if not cases[i]["shape"].startswith("exhaustive")
+             and not has_arrays(cases[i])][:n_str - len(pick)]
     enc_s, idx_s = [], []
     for i in pick:
         e = encode_case_s(cases[i], results[i])
@@ -1060,7 +1078,7 @@ def run(ctx):
                        {"correspondence": "Model/C09_connect.v check_case vs pymoca.tree.flatten",
                         "case": slim(cases[i]), "observed": results[i]}, no_input=True)
     core.replay_known(ctx, lambda e: known_still_fails(ctx, e))
-    ctx.notes["array_cases_oracle_only"] = n_array_cases
+    ctx.notes["array_cases_in_correspondence"] = n_array_cases
 
     ctx.cov["evaluations"] = len(cases)
     ctx.cov["distinct_nontrivial"] = len(nontrivial)
@@ -1079,9 +1097,10 @@ def run(ctx):
         "value-level model: flow_connections maps a key to its set of keys; the sharing of OrderedDict objects "
         "(in-place update of the left set, repointing of all members) is covered by the proved sharing invariant at "
         "value level and exercised by the correspondence check, not proved at heap level",
-        "the Coq model has scalar connectors only (index tuple of a key always empty): generated top-level arrays "
-        "of components/connectors are judged by the row-space oracle only and skip the Coq correspondence; arrays are "
-        "generated with every element of an array connected or none (the partial case is the recorded known finding); "
+        "array elements are names with integer subscripts (indexed instance of the generic model); the correspondence "
+        "runs check_case_byname, which removes zero defaults by array NAME as the code does; arrays are generated with "
+        "every element of an array connected or none (the partial case is the recorded known finding, theorem "
+        "C09_byname_refuted; C09_byname_all_or_none covers the rest); the string-level sample excludes array cases; "
         "stream/expandable connectors and connects of elementary Reals are outside the model and the generator",
         "equation order and operand order are not compared (multisets of canonical linear forms); the parse of flat "
         "equations into linear rows and the name splitting at '.' are trusted harness code",
